@@ -47,11 +47,13 @@ def b_scalars():
     p.add_argument("--c", type=bool, default=False)
     p.add_argument("--d", type=Optional[int], default=None)
     p.add_argument("--e", type=str, default="x")
+    p.add_argument("--od", type=Optional[int], default=5)  # None is a value here although the default is not None
     return p
 
 
 def s_scalars():
-    return dict(a=S.int("a"), b=(S.float("b") if S.flag("b.isfloat") else S.int("b")), c=S.bool("c"), d=opt("d", lambda: S.int("d")), e=pstr("e"))
+    return dict(a=S.int("a"), b=(S.float("b") if S.flag("b.isfloat") else S.int("b")), c=S.bool("c"), d=opt("d", lambda: S.int("d")), e=pstr("e"),
+                od=opt("od", lambda: S.int("od")))
 
 
 def b_unions():
@@ -167,6 +169,25 @@ def s_sle():
     )
 
 
+def b_set_small():
+    from typing import List, Set
+
+    from .fixtures import Color
+
+    p = _ap()
+    p.add_argument("--s", type=Set[int], default={1})
+    p.add_argument("--en", type=Color, default=Color.RED)
+    p.add_argument("--ls", type=List[Set[int]], default=[])
+    return p
+
+
+def s_set_small():
+    from .fixtures import Color
+
+    s = [x for x in (1, 2) if S.flag(f"s.has{x}")]
+    return dict(s=(set(s) if S.flag("s.as_set") else s), en=S.pick("en", ["GREEN", Color.BLUE]), ls=([[S.int("ls00", 0, 2)]] if S.flag("ls?") else []))
+
+
 def b_restricted():
     from typing import List, Optional
 
@@ -242,8 +263,13 @@ def b_dataclass_opt():
 
 
 def s_dataclass_opt():
-    q = opt("q", lambda: dict(a=S.int("q.a"), b=opt("q.b", lambda: S.int("q.b"))))
-    return dict(q=q, n=S.int("n"))
+    def mk():
+        d = dict(a=S.int("q.a"), b=opt("q.b", lambda: S.int("q.b")))
+        if S.flag("q.c given"):
+            d["c"] = opt("q.c", lambda: S.int("q.c"))
+        return d
+
+    return dict(q=opt("q", mk), n=S.int("n"))
 
 
 def _spec(name, allow_none=False):
@@ -259,6 +285,8 @@ def _spec(name, allow_none=False):
             ia["w"] = S.int(name + ".w")
         if S.flag(name + ".z?"):
             ia["z"] = S.int(name + ".z")
+        if S.flag(name + ".k=None"):
+            ia["k"] = None
         return dict(class_path="vf.fixtures.Sub1", init_args=ia)
     if k == 2:
         ia = dict(w=S.int(name + ".w"))
@@ -420,6 +448,7 @@ SHAPES = [
     Shape("dicts", b_dicts, s_dicts),
     Shape("tuples", b_tuples, s_tuples),
     Shape("set_literal_enum", b_sle, s_sle),
+    Shape("set_small", b_set_small, s_set_small),
     Shape("restricted", b_restricted, s_restricted),
     Shape("registered", b_registered, s_registered, note="native"),
     Shape("dataclass", b_dataclass, s_dataclass),
